@@ -260,4 +260,66 @@ theorem publicTag_tyWF {env : Env} (hwf : envWF env = true) {cls tag : String} {
     rw [tagsSpec_nil] at hm
     exact ⟨(hw.1.1.2 td (List.mem_filter.mp hm).1).2, hn⟩
 
+/-! ### the members of a struct on the wire -/
+
+/-- the value a field is set to: the first slot of that name that holds something other than None -/
+def firstSet (name : String) (slots : List (String × PyVal)) : Option PyVal :=
+  (slots.find? fun kx => kx.1 == name && !isNoneV kx.2).map (·.2)
+
+theorem lookupW_wireSlots (E : Ext) (env : Env) (fields : List FieldDef) (name : String) {f : FieldDef}
+    (hf : fields.find? (·.name == name) = some f) (slots : List (String × PyVal)) :
+    lookupW name (wireSlots E env fields slots) = (firstSet name slots).map (wire E env f.ty) := by
+  induction slots with
+  | nil => simp [wireSlots, lookupW, firstSet]
+  | cons kx rest ih =>
+    obtain ⟨k, x⟩ := kx
+    unfold firstSet at ih ⊢
+    by_cases hk : k = name
+    · subst hk
+      cases x <;> simp [wireSlots, hf, lookupW, isNoneV, ih, List.find?_cons]
+    · cases hfk : fields.find? (·.name == k) <;> cases x <;>
+        simp [wireSlots, hfk, lookupW, isNoneV, ih, hk, List.find?_cons]
+
+theorem find?_name_of_mem {fields : List FieldDef}
+    (hinj : ∀ a ∈ fields, ∀ b ∈ fields, a.name = b.name → a = b) {f : FieldDef} (hf : f ∈ fields) :
+    fields.find? (·.name == f.name) = some f := by
+  cases h : fields.find? (·.name == f.name) with
+  | none =>
+    rw [List.find?_eq_none] at h
+    exact absurd (by simp) (h f hf)
+  | some a =>
+    have ha := List.mem_of_find?_eq_some h
+    have hn : a.name = f.name := by simpa using List.find?_some h
+    rw [hinj a ha f hf hn]
+
+theorem publicFields_names_inj {env : Env} (hwf : envWF env = true) (c : String) :
+    ∀ a ∈ publicFields env c, ∀ b ∈ publicFields env c, a.name = b.name → a = b := by
+  unfold publicFields
+  cases hs : env.struct? c with
+  | none => intro a ha; cases ha
+  | some s =>
+    have hw := envWF_struct hwf hs
+    simp only [StructDef.wf, Bool.and_eq_true] at hw
+    have hinj := names_inj_of_nodup (fun f : FieldDef => f.name) ((nodupS_iff _).mp hw.1.1.1.1.2)
+    intro a ha b hb
+    simp only [fieldsSpec_nil] at ha hb
+    exact hinj a (List.mem_filter.mp ha).1 b (List.mem_filter.mp hb).1
+
+theorem filterMap_congr_mem {α β} {f g : α → Option β} {l : List α} (h : ∀ a ∈ l, f a = g a) :
+    l.filterMap f = l.filterMap g := by
+  induction l with
+  | nil => rfl
+  | cons x xs ih =>
+    simp only [List.filterMap_cons, h x (by simp), ih (fun a ha => h a (by simp [ha]))]
+
+theorem pick_wireSlots (E : Ext) (env : Env) (fields : List FieldDef)
+    (hinj : ∀ a ∈ fields, ∀ b ∈ fields, a.name = b.name → a = b) (slots : List (String × PyVal)) :
+    pick fields (wireSlots E env fields slots) =
+      fields.filterMap fun f => (firstSet f.name slots).map fun x => (f.name, wire E env f.ty x) := by
+  unfold pick
+  apply filterMap_congr_mem
+  intro f hf
+  rw [lookupW_wireSlots E env fields f.name (find?_name_of_mem hinj hf)]
+  cases firstSet f.name slots <;> simp
+
 end StoneVerif.Rt
